@@ -79,6 +79,15 @@ CLAIMS["C02"] = dict(
     note="Not decided: the enumeration semantics (values bound in order, lock-step, laziness) - whole-execution properties. Design defect D8 (one temp register for all contexts) is not expressible in these contracts.",
     ref="DESIGN.md section 4 C02")
 
+CLAIMS["C01"] = dict(
+    text="Proof (unbounded) of three mechanisms the equivalence rests on, nothing more: (1) every HasCall implementation computes exactly 'a call occurs in the node outside function literals' (the condition under which BinOp may keep its left operand in the VM's single temp register across the evaluation of the right operand); (2) operand fetch returns the data-segment constant itself for DS operands and pops the stack only for stack operands; (3) a forked iterator context cannot write the parent's closure stack. The operator results (C11), the structural code-generation contract (C12) and the memory model (C18) are claimed under their own ids.",
+    note="NOT decided: the property's sentence - equality of value, output and error class between compiler+VM and a definitional evaluator over all programs. That needs a step semantics of the VM composed with the emitted code (a simulation argument), which is outside what contracts on single functions express here. Listed so that changes to these three mechanisms are reported against C01 as well.",
+    ref="DESIGN.md change log B.2")
+CLAIMS["C07"] = dict(
+    text="Proof (unbounded, any chain length) for the two tree builders that implement associativity and index nesting: mkLeftChain returns the left-associated tree of `x0 op1 x1 ... opn xn` (each operator node has the chain to its left as Left and the next operand as Right), mkIndex returns the left-nested index chain (each [i] / [i:j] applies to everything to its left), both stated against ghost functions defined by the documented rule; their panics and index/slice operations are unreachable/in range for the item counts the grammar produces.",
+    note="NOT decided: the round trip print-then-parse over all trees, precedence levels and layout insensitivity: the grammar functions in parser.go are closures assembled from combinators whose result lists have no contract (C13 decides positions only), and no printer exists in the repository. Assumed: the item lists handed to the builders have the shapes the grammar produces (odd length with operators at odd positions; type assertions succeed).",
+    ref="DESIGN.md change log B.2")
+
 NA = {
  "C01": "no contract within reach decides it: the property equates the results of whole executions (compiler + VM) with a definitional evaluator; the function-level pieces it depends on are claimed separately (C05 interface, C11 operators, C12 structural contract K, C18 memory); composing them needs a VM step semantics and a simulation argument, which is a model, not a contract on one function",
  "C07": "no contract within reach decides it: the statement quantifies over all syntax trees printed by documented rules and re-parsed; the grammar functions are mutually recursive closures built at init time from combinators whose result lists are unspecified (C13 decides only positions); a round-trip contract would need a printer that does not exist in the repository (writing one would be a model)",
